@@ -42,6 +42,9 @@ structure GoodCS (cs : CS) : Prop where
   all : ∀ u s, cs.sAll = some (u, s) → StaticSet s
   src : ∀ s, cs.src = some s → StaticSet s
   dst : ∀ s, cs.dst = some s → StaticSet s
+  /-- the trees handed over so far, and the one of the FETCH response being read -/
+  dd : cs.deliveredDepth ≤ maxListDepth
+  cur : cs.cur.bodyDepth ≤ maxListDepth
 
 def Good (d : Dec) : Prop := GoodCS d.cs ∧ d.maxDepth ≤ maxListDepth
 
@@ -216,7 +219,8 @@ theorem tr_bind' {α β} {p : P α} {f : α → P β} {R : β → Prop}
 
 /-- entering a level below the limit keeps the depth ghost within the limit, and the new
     level is below the limit again -/
-theorem tr_enter (depth : Nat) (h : depth < maxListDepth) : Tr (enter depth) (fun dp => dp < maxListDepth) := by
+theorem tr_enter (depth : Nat) (h : depth < maxListDepth) :
+    Tr (enter depth) (fun dp => dp = depth + 1 ∧ dp < maxListDepth) := by
   constructor
   intro d hd
   unfold enter
@@ -224,11 +228,11 @@ theorem tr_enter (depth : Nat) (h : depth < maxListDepth) : Tr (enter depth) (fu
   have hm : max d.maxDepth (depth + 1) ≤ maxListDepth := Nat.max_le.2 ⟨hd.2, h⟩
   by_cases c : depth + 1 ≥ maxListDepth
   · simp only [c, if_true]; exact ⟨hd.1, hm⟩
-  · simp only [c, if_false]; exact ⟨⟨hd.1, hm⟩, by omega⟩
+  · simp only [c, if_false]; exact ⟨⟨hd.1, hm⟩, rfl, by omega⟩
 
 theorem tr_bind_enter {β} {depth : Nat} {f : Nat → P β} {R : β → Prop} (h : depth < maxListDepth)
     (hf : ∀ dp, dp < maxListDepth → Tr (f dp) R) : Tr (enter depth >>= f) R :=
-  tr_bind (tr_enter depth h) hf
+  tr_bind (tr_enter depth h) (fun dp hdp => hf dp hdp.2)
 
 theorem tr_finally {α} {p : P α} {Q : α → Prop} (h : CS → CS) (hp : Tr p Q)
     (hh : ∀ cs, GoodCS cs → GoodCS (h cs)) : Tr (finally' p h) Q := by
@@ -269,6 +273,32 @@ macro_rules
       | (first $[| apply $ls]*)
       | apply tr_bind_enter
       | apply tr_bind'
+      | split))
+
+theorem tr_pure' {α} (a : α) : Tr' (pure a : P α) := tr_pure _ _ trivial
+
+/-- like `tr_auto`, but keeps the facts about the values sub-parsers return (as hypotheses) and
+    proves the postcondition of a returned value by linear arithmetic from them -/
+syntax "tr_autoq" ("[" term,* "]")? : tactic
+macro_rules
+  | `(tactic| tr_autoq) => `(tactic| tr_autoq [])
+  | `(tactic| tr_autoq [$ls,*]) => `(tactic|
+    repeat' (first
+      | intro _
+      | exact tr_fail _
+      | exact tr_unmod _
+      | exact tr_nofuel _
+      | assumption
+      | exact tr_expect _
+      | exact tr_acceptByte _
+      | exact tr_peekByte
+      | exact tr_func _
+      | exact tr_getCS
+      | (first $[| exact $ls]*)
+      | (first $[| apply $ls]*)
+      | exact tr_pure' _
+      | exact tr_pure _ _ (by first | exact True.intro | assumption | omega | (dsimp only at *; omega))
+      | apply tr_bind
       | split))
 
 theorem tr_special (w : UInt8) : Tr' (special w) := tr_acceptByte w
@@ -397,16 +427,17 @@ theorem good_addToAll (cs : CS) (n : Nat) (h : GoodCS cs) (h0 : n ≠ 0) (hW : n
   | none => simpa [hall] using h
   | some us =>
     obtain ⟨u, s0⟩ := us
-    refine ⟨h.nz, ?_, h.src, h.dst⟩
+    refine ⟨h.nz, ?_, h.src, h.dst, h.dd, h.cur⟩
     intro u' s' he
     simp only [Option.some.injEq, Prod.mk.injEq] at he
     rw [← he.2]
     exact static_addNum s0 n (h.all u s0 hall) h0 hW
 
 theorem good_delivered (cs : CS) (l : List Nat) (h : GoodCS cs) (hl : ∀ n ∈ l, n ≠ 0) (cs' : CS)
-    (hd : cs'.delivered = cs.delivered ++ l) (ha : cs'.sAll = cs.sAll) (hs : cs'.src = cs.src) (ht : cs'.dst = cs.dst) :
+    (hd : cs'.delivered = cs.delivered ++ l) (ha : cs'.sAll = cs.sAll) (hs : cs'.src = cs.src) (ht : cs'.dst = cs.dst)
+    (hdd : cs'.deliveredDepth ≤ maxListDepth) (hc : cs'.cur.bodyDepth = cs.cur.bodyDepth) :
     GoodCS cs' := by
-  refine ⟨?_, by rw [ha]; exact h.all, by rw [hs]; exact h.src, by rw [ht]; exact h.dst⟩
+  refine ⟨?_, by rw [ha]; exact h.all, by rw [hs]; exact h.src, by rw [ht]; exact h.dst, hdd, by rw [hc]; exact h.cur⟩
   intro n hn
   rw [hd, List.mem_append] at hn
   cases hn with
@@ -415,8 +446,10 @@ theorem good_delivered (cs : CS) (l : List Nat) (h : GoodCS cs) (hl : ∀ n ∈ 
 
 /-- a change that touches neither the delivered numbers nor the delivered sets -/
 theorem good_same (cs cs' : CS) (h : GoodCS cs) (hd : cs'.delivered = cs.delivered) (ha : cs'.sAll = cs.sAll)
-    (hs : cs'.src = cs.src) (ht : cs'.dst = cs.dst) : GoodCS cs' :=
-  ⟨by rw [hd]; exact h.nz, by rw [ha]; exact h.all, by rw [hs]; exact h.src, by rw [ht]; exact h.dst⟩
+    (hs : cs'.src = cs.src) (ht : cs'.dst = cs.dst) (hdd : cs'.deliveredDepth = cs.deliveredDepth)
+    (hc : cs'.cur.bodyDepth = cs.cur.bodyDepth) : GoodCS cs' :=
+  ⟨by rw [hd]; exact h.nz, by rw [ha]; exact h.all, by rw [hs]; exact h.src, by rw [ht]; exact h.dst,
+    by rw [hdd]; exact h.dd, by rw [hc]; exact h.cur⟩
 
 /-! ### SEARCH / ESEARCH / SORT / THREAD (the repaired reader: zero is rejected) -/
 
@@ -448,7 +481,7 @@ theorem tr_searchLoop : ∀ fuel, Tr' (searchLoop true fuel) := by
             refine tr_modifyCS _ ?_
             intro cs hcs
             split
-            · exact good_same cs _ hcs rfl rfl rfl rfl
+            · exact good_same cs _ hcs rfl rfl rfl rfl rfl rfl
             · exact hcs
       · refine tr_bind tr_expectNumber ?_
         intro num hnum
@@ -554,7 +587,7 @@ theorem tr_handleESearch (fuel : Nat) : Tr' (handleESearch fuel) := by
   refine tr_modifyCS _ ?_
   intro cs hcs
   split
-  · exact ⟨hcs.nz, hr, hcs.src, hcs.dst⟩
+  · exact ⟨hcs.nz, hr, hcs.src, hcs.dst, hcs.dd, hcs.cur⟩
   · exact hcs
 
 theorem tr_sortLoop : ∀ fuel, Tr' (sortLoop true fuel) := by
@@ -577,12 +610,16 @@ theorem tr_sortLoop : ∀ fuel, Tr' (sortLoop true fuel) := by
         refine tr_bind' (tr_modifyCS _ ?_) (fun _ => ih)
         intro cs hcs
         split
-        · exact good_delivered cs [num] hcs (by intro k hk; simp at hk; rw [hk]; exact h0) _ rfl rfl rfl rfl
+        · exact good_delivered cs [num] hcs (by intro k hk; simp at hk; rw [hk]; exact h0) _ rfl rfl rfl rfl hcs.dd rfl
         · exact hcs
 
 def TDok (t : TD) : Prop := ∀ n ∈ t.nums, n ≠ 0
 
-theorem tr_threadItem (sub : P TD) (t : TD) (hs : Tr sub TDok) (ht : TDok t) : Tr (threadItem true sub t) TDok := by
+/-- a thread (list) read at nesting level `dp`: no zero in it, and not deeper than the limit allows -/
+def TDat (dp : Nat) (t : TD) : Prop := TDok t ∧ t.depth + dp ≤ maxListDepth + 1
+
+theorem tr_threadItem (dp : Nat) (sub : P TD) (t : TD) (hs : Tr sub (TDat (dp + 1))) (ht : TDat dp t) :
+    Tr (threadItem true sub t) (TDat dp) := by
   unfold threadItem
   refine tr_bind' (p := (if !t.hasSub then number else pure none : P (Option Nat))) ?_ ?_
   · split
@@ -597,26 +634,30 @@ theorem tr_threadItem (sub : P TD) (t : TD) (hs : Tr sub TDok) (ht : TDok t) : T
       · rename_i hz
         have h0 : n ≠ 0 := by
           intro e; apply hz; simp [e]
-        refine tr_pure _ _ ?_
+        refine tr_pure _ _ ⟨?_, ht.2⟩
         intro k hk
         simp only [List.mem_append, List.mem_singleton] at hk
         cases hk with
-        | inl h1 => exact ht k h1
+        | inl h1 => exact ht.1 k h1
         | inr h2 => rw [h2]; exact h0
     | none =>
       simp only []
       refine tr_bind hs ?_
       intro s hsok
-      refine tr_pure _ _ ?_
-      intro k hk
-      simp only [List.mem_append] at hk
-      cases hk with
-      | inl h1 => exact ht k h1
-      | inr h2 => exact hsok k h2
+      refine tr_pure _ _ ⟨?_, ?_⟩
+      · intro k hk
+        simp only [List.mem_append] at hk
+        cases hk with
+        | inl h1 => exact ht.1 k h1
+        | inr h2 => exact hsok.1 k h2
+      · have h1 := ht.2
+        have h2 := hsok.2
+        simp only [Nat.max_def]
+        split <;> omega
 
 theorem tr_thread : ∀ fuel,
-    (∀ depth, depth < maxListDepth → Tr (threadList true fuel depth) TDok) ∧
-    (∀ dp t, dp < maxListDepth → TDok t → Tr (threadList.threadLoop true fuel dp t) TDok) := by
+    (∀ depth, depth < maxListDepth → Tr (threadList true fuel depth) (TDat (depth + 1))) ∧
+    (∀ dp t, dp < maxListDepth → TDat dp t → Tr (threadList.threadLoop true fuel dp t) (TDat dp)) := by
   intro fuel
   induction fuel with
   | zero =>
@@ -634,15 +675,22 @@ theorem tr_thread : ∀ fuel,
       · refine tr_bind' (tr_special _) ?_
         intro b2
         split
-        · exact tr_pure _ _ (by intro k hk; cases hk)
+        · refine tr_pure _ _ ⟨(by intro k hk; cases hk), ?_⟩
+          show 1 + (depth + 1) ≤ maxListDepth + 1
+          omega
         · refine tr_bind (tr_enter depth hd) ?_
           intro dp hdp
-          refine tr_bind (ih.2 dp {} hdp (by intro k hk; cases hk)) ?_
+          obtain ⟨he, hlt⟩ := hdp
+          have hinit : TDat dp {} := ⟨(by intro k hk; cases hk), (by show 1 + dp ≤ maxListDepth + 1; omega)⟩
+          refine tr_bind (ih.2 dp {} hlt hinit) ?_
           intro t ht
-          exact tr_pure _ _ ht
+          refine tr_pure _ _ ⟨ht.1, ?_⟩
+          have := ht.2
+          show t.depth + (depth + 1) ≤ maxListDepth + 1
+          omega
     · intro dp t hdp ht
       unfold threadList.threadLoop
-      refine tr_bind (tr_threadItem _ t (ih.1 dp hdp) ht) ?_
+      refine tr_bind (tr_threadItem dp _ t (ih.1 dp hdp) ht) ?_
       intro t' ht'
       refine tr_bind' (tr_special _) ?_
       intro b
@@ -667,7 +715,8 @@ theorem tr_threadsLoop : ∀ fuel, Tr' (threadsLoop true fuel) := by
       refine tr_bind' (tr_modifyCS _ ?_) (fun _ => ih)
       intro cs hcs
       split
-      · exact good_delivered cs t.nums hcs ht _ rfl rfl rfl rfl
+      · have htd : t.depth ≤ maxListDepth := by have := ht.2; omega
+        exact good_delivered cs t.nums hcs ht.1 _ rfl rfl rfl rfl (Nat.max_le.2 ⟨hcs.dd, htd⟩) rfl
       · exact hcs
 
 /-! ### FETCH -/
@@ -736,48 +785,101 @@ theorem tr_trailingValues : ∀ fuel depth, depth < maxListDepth → Tr' (traili
     have := ih depth hd
     tr_auto [tr_sp]
 
+set_option maxRecDepth 8000 in
 theorem tr_readBody : ∀ fuel,
-    (∀ depth nest, depth < maxListDepth → Tr' (readBody true fuel depth nest)) ∧
-    (∀ dp nest typ, dp < maxListDepth → Tr' (readBody.body1part true fuel dp nest typ)) ∧
-    (∀ dp nest acc dmax, dp < maxListDepth → Tr' (readBody.mpartLoop true fuel dp nest acc dmax)) := by
+    (∀ depth nest, depth < maxListDepth →
+      Tr (readBody true fuel depth nest) (fun b => b.depth + depth + 1 ≤ maxListDepth)) ∧
+    (∀ dp nest typ, dp < maxListDepth →
+      Tr (readBody.body1part true fuel dp nest typ) (fun b => b.depth + dp ≤ maxListDepth)) ∧
+    (∀ dp nest acc dmax, dp < maxListDepth → dmax + dp + 1 ≤ maxListDepth →
+      Tr (readBody.mpartLoop true fuel dp nest acc dmax) (fun r => r.2 + dp ≤ maxListDepth)) := by
   intro fuel
   induction fuel with
   | zero =>
     refine ⟨?_, ?_, ?_⟩
     · intro depth nest _; unfold readBody; exact tr_nofuel _
     · intro dp nest typ _; unfold readBody.body1part; exact tr_nofuel _
-    · intro dp nest acc dmax _; unfold readBody.mpartLoop; exact tr_nofuel _
+    · intro dp nest acc dmax _ _; unfold readBody.mpartLoop; exact tr_nofuel _
   | succ n ih =>
     obtain ⟨ihB, ih1, ihM⟩ := ih
     refine ⟨?_, ?_, ?_⟩
     · intro depth nest hd
       unfold readBody
-      refine tr_bind (Q := fun r => r.1 < maxListDepth) ?_ ?_
+      refine tr_bind (Q := fun r => r.1 = depth + 1 ∧ r.1 < maxListDepth) ?_ ?_
       · simp only [if_true]
         refine tr_bind (tr_enter depth hd) ?_
         intro dp hdp
         exact tr_pure _ _ hdp
       · intro r hr
         obtain ⟨dp, nest'⟩ := r
-        simp only [] at hr
-        have h1 := fun typ => ih1 dp nest' typ hr
-        have hM := ihM dp nest' "" 0 hr
-        have hT := tr_trailingValues n dp hr
-        tr_auto [tr_expectSpecial, tr_string, h1]
+        obtain ⟨he, hlt⟩ := hr
+        simp only [] at he hlt
+        refine tr_bind' (tr_expectSpecial _) ?_
+        intro _
+        refine tr_bind (Q := fun b => b.depth + dp ≤ maxListDepth) ?_ ?_
+        · refine tr_bind' tr_string ?_
+          intro o
+          cases o with
+          | some typ => exact ih1 dp nest' typ hlt
+          | none =>
+            simp only []
+            refine tr_bind' tr_badLiteral ?_
+            intro bl
+            split
+            · exact tr_fail _
+            · refine tr_bind (ihM dp nest' "" 0 hlt (by omega)) ?_
+              intro r2 hr2
+              obtain ⟨outs, dpt⟩ := r2
+              exact tr_pure _ _ hr2
+        · intro b hb
+          refine tr_bind' (tr_trailingValues n dp hlt) ?_
+          intro _
+          refine tr_bind' (tr_expectSpecial _) ?_
+          intro _
+          refine tr_pure _ _ ?_
+          omega
     · intro dp nest typ hd
       unfold readBody.body1part
       have hP := tr_readBodyFldParam n dp hd
       have hE := tr_readEnvelope n dp hd
       have hB := ihB dp nest hd
       have hX := tr_extTail n dp hd
-      tr_auto [tr_expectSP, tr_expectString, tr_expectNString, tr_expectBodyFldOctets, tr_sp, tr_expectNumber64]
-    · intro dp nest acc dmax hd
+      tr_autoq [tr_expectSP, tr_expectString, tr_expectNString, tr_expectBodyFldOctets, tr_sp, tr_expectNumber64]
+    · intro dp nest acc dmax hd hdm
       unfold readBody.mpartLoop
       have hP := tr_readBodyFldParam n dp hd
-      have hB := ihB dp nest hd
       have hX := tr_extTail n dp hd
-      have hM := fun a b => ihM dp nest a b hd
-      tr_auto [tr_sp, tr_string, hM]
+      refine tr_bind (ihB dp nest hd) ?_
+      intro child hchild
+      simp only []
+      have hmax : max dmax child.depth + dp + 1 ≤ maxListDepth := by
+        simp only [Nat.max_def]; split <;> omega
+      refine tr_bind' ?_ ?_
+      · tr_auto [tr_sp, tr_string]
+      · intro more
+        cases more with
+        | none =>
+          simp only []
+          refine tr_bind' tr_badLiteral ?_
+          intro bl
+          split
+          · exact tr_fail _
+          · exact ihM dp nest _ _ hd hmax
+        | some sub =>
+          simp only []
+          refine tr_bind' tr_sp ?_
+          intro ext
+          split
+          · refine tr_bind' hP ?_
+            intro _
+            refine tr_bind' hX ?_
+            intro _
+            refine tr_pure _ _ ?_
+            show max dmax child.depth + 1 + dp ≤ maxListDepth
+            omega
+          · refine tr_pure _ _ ?_
+            show max dmax child.depth + 1 + dp ≤ maxListDepth
+            omega
 
 /-! ### handing a FETCH message over -/
 
@@ -786,7 +888,7 @@ theorem good_handleMsg (seq : Nat) (cs : CS) (h : GoodCS cs) : GoodCS (handleMsg
   simp only []
   split
   · exact h
-  · split <;> (try split) <;> exact good_same cs _ h rfl rfl rfl rfl
+  · split <;> (try split) <;> exact good_same cs _ h rfl rfl rfl rfl rfl rfl
 
 theorem handleMsg_delivered (seq : Nat) (cs : CS) : (handleMsg seq cs).delivered = cs.delivered := by
   unfold handleMsg
@@ -800,8 +902,8 @@ theorem good_deliverMsg (seq : Nat) (h0 : seq ≠ 0) (cs : CS) (h : GoodCS cs) :
   simp only []
   have hm := good_handleMsg seq cs h
   split
-  · exact good_delivered _ [seq] hm (by intro k hk; simp at hk; rw [hk]; exact h0) _ rfl rfl rfl rfl
-  · exact good_delivered _ [seq] hm (by intro k hk; simp at hk; rw [hk]; exact h0) _ rfl rfl rfl rfl
+  · exact good_delivered _ [seq] hm (by intro k hk; simp at hk; rw [hk]; exact h0) _ rfl rfl rfl rfl (Nat.max_le.2 ⟨hm.dd, hm.cur⟩) rfl
+  · exact good_delivered _ [seq] hm (by intro k hk; simp at hk; rw [hk]; exact h0) _ rfl rfl rfl rfl (Nat.max_le.2 ⟨hm.dd, hm.cur⟩) rfl
 
 theorem tr_flagLoop : ∀ fuel k, Tr' (flagLoop fuel k) := by
   intro fuel
@@ -812,14 +914,31 @@ theorem tr_flagLoop : ∀ fuel k, Tr' (flagLoop fuel k) := by
     unfold flagLoop
     tr_auto [tr_expectFlag, tr_special, tr_expectSP, ih]
 
-theorem tr_setCur (f : Msg → Msg) : Tr' (setCur f) := by
+theorem tr_setCur (f : Msg → Msg) (hf : ∀ m, m.bodyDepth ≤ maxListDepth → (f m).bodyDepth ≤ maxListDepth) :
+    Tr' (setCur f) := by
   unfold setCur
-  exact tr_modifyCS _ (fun cs hcs => good_same cs _ hcs rfl rfl rfl rfl)
+  refine tr_modifyCS _ ?_
+  intro cs hcs
+  exact ⟨hcs.nz, hcs.all, hcs.src, hcs.dst, hcs.dd, hf _ hcs.cur⟩
+
+theorem tr_setCur_keep (f : Msg → Msg) (hf : ∀ m, (f m).bodyDepth = m.bodyDepth) : Tr' (setCur f) :=
+  tr_setCur f (fun m h => by rw [hf m]; exact h)
+
+theorem tr_fetchBodyAtt (fuel dp : Nat) (hd : dp < maxListDepth) : Tr' (fetchBodyAtt fuel dp true) := by
+  unfold fetchBodyAtt
+  refine tr_bind' tr_expectSP ?_
+  intro _
+  refine tr_bind ((tr_readBody fuel).1 dp 0 hd) ?_
+  intro b hb
+  refine tr_setCur _ ?_
+  intro m _
+  show b.depth ≤ maxListDepth
+  omega
 
 theorem tr_fetchAtt (fuel dp seq : Nat) (hd : dp < maxListDepth) : Tr' (fetchAtt fuel dp true seq) := by
   unfold fetchAtt
   have hE := tr_readEnvelope fuel dp hd
-  have hB := (tr_readBody fuel).1 dp 0 hd
+  have hB := tr_fetchBodyAtt fuel dp hd
   have hlast : Tr' (modifyCS fun cs =>
       let cs := { cs with cur := { cs.cur with numAtts := cs.cur.numAtts + 1 } }
       if cs.cur.numAtts > 32 then handleMsg seq cs else cs) := by
@@ -827,9 +946,9 @@ theorem tr_fetchAtt (fuel dp seq : Nat) (hd : dp < maxListDepth) : Tr' (fetchAtt
     intro cs hcs
     simp only []
     split
-    · exact good_handleMsg seq _ (good_same cs _ hcs rfl rfl rfl rfl)
-    · exact good_same cs _ hcs rfl rfl rfl rfl
-  tr_auto [tr_expectSP, tr_special, tr_flagLoop, tr_setCur, tr_expectNumber64, tr_expectNumber', tr_expectSpecial, tr_expectModSeq]
+    · exact good_handleMsg seq _ (good_same cs _ hcs rfl rfl rfl rfl rfl rfl)
+    · exact good_same cs _ hcs rfl rfl rfl rfl rfl rfl
+  tr_auto [tr_expectSP, tr_special, tr_flagLoop, tr_setCur_keep _ (fun _ => rfl), tr_expectNumber64, tr_expectNumber', tr_expectSpecial, tr_expectModSeq]
 
 theorem tr_handleFetch (fuel seq : Nat) : Tr' (handleFetch fuel {} seq) := by
   unfold handleFetch
@@ -838,7 +957,7 @@ theorem tr_handleFetch (fuel seq : Nat) : Tr' (handleFetch fuel {} seq) := by
   · rename_i hz
     have h0 : seq ≠ 0 := by
       intro e; apply hz; simp [e]
-    refine tr_bind' (tr_modifyCS _ (fun cs hcs => good_same cs _ hcs rfl rfl rfl rfl)) ?_
+    refine tr_bind' (tr_modifyCS _ (fun cs hcs => ⟨hcs.nz, hcs.all, hcs.src, hcs.dst, hcs.dd, Nat.zero_le _⟩)) ?_
     intro _
     refine tr_finally _ ?_ (good_deliverMsg seq h0)
     exact tr_expectList fuel 0 _ (by decide) (fun dp hdp => tr_fetchAtt fuel dp seq hdp)
@@ -890,7 +1009,7 @@ theorem tr_respCodeData (fuel : Nat) (tagged : Bool) (code : Bytes) : Tr' (respC
       · refine tr_modifyCS _ ?_
         intro cs hcs
         split
-        · exact good_same cs _ hcs rfl rfl rfl rfl
+        · exact good_same cs _ hcs rfl rfl rfl rfl rfl rfl
         · exact hcs
     · split
       · refine tr_bind' tr_expectSP ?_
@@ -901,7 +1020,7 @@ theorem tr_respCodeData (fuel : Nat) (tagged : Bool) (code : Bytes) : Tr' (respC
         refine tr_modifyCS _ ?_
         intro cs hcs
         split
-        · refine ⟨hcs.nz, hcs.all, ?_, ?_⟩
+        · refine ⟨hcs.nz, hcs.all, ?_, ?_, hcs.dd, hcs.cur⟩
           · intro s' he; simp only [Option.some.injEq] at he; rw [← he]; exact hr.1
           · intro s' he; simp only [Option.some.injEq] at he; rw [← he]; exact hr.2
         · exact hcs
@@ -922,7 +1041,7 @@ theorem tr_readTagged (fuel : Nat) (tag typ : Bytes) : Tr' (readTagged fuel {} t
   intro cs
   split
   · exact tr_fail _
-  · refine tr_bind' (tr_modifyCS _ (fun cs hcs => good_same cs _ hcs rfl rfl rfl rfl)) ?_
+  · refine tr_bind' (tr_modifyCS _ (fun cs hcs => good_same cs _ hcs rfl rfl rfl rfl rfl rfl)) ?_
     intro _
     refine tr_bind' (tr_respText fuel true) ?_
     intro _
@@ -930,7 +1049,7 @@ theorem tr_readTagged (fuel : Nat) (tag typ : Bytes) : Tr' (readTagged fuel {} t
     · exact tr_fail _
     · refine tr_bind' tr_expectCRLF ?_
       intro _
-      exact tr_modifyCS _ (fun cs hcs => good_same cs _ hcs rfl rfl rfl rfl)
+      exact tr_modifyCS _ (fun cs hcs => good_same cs _ hcs rfl rfl rfl rfl rfl rfl)
 
 theorem tr_readData (fuel : Nat) (typ0 : Bytes) : Tr' (readData fuel {} typ0) := by
   unfold readData
@@ -954,8 +1073,8 @@ theorem tr_readData (fuel : Nat) (typ0 : Bytes) : Tr' (readData fuel {} typ0) :=
               refine tr_modifyCS _ ?_
               intro cs hcs
               split
-              · exact good_delivered cs [num] hcs (by intro k hk; simp at hk; rw [hk]; exact h0) _ rfl rfl rfl rfl
-              · exact good_delivered cs [num] hcs (by intro k hk; simp at hk; rw [hk]; exact h0) _ rfl rfl rfl rfl
+              · exact good_delivered cs [num] hcs (by intro k hk; simp at hk; rw [hk]; exact h0) _ rfl rfl rfl rfl hcs.dd rfl
+              · exact good_delivered cs [num] hcs (by intro k hk; simp at hk; rw [hk]; exact h0) _ rfl rfl rfl rfl hcs.dd rfl
           · split
             · exact tr_bind' tr_expectSP (fun _ => tr_handleFetch fuel num)
             · split
@@ -998,7 +1117,7 @@ theorem readLoop_good (fuel : Nat) : ∀ n d, Good d →
 
 theorem good_init (tag : Bytes) (kind : Kind) (inp : Bytes) :
     Good { inp := inp, cs := initCS tag kind, cfg := {} } := by
-  refine ⟨⟨?_, ?_, ?_, ?_⟩, Nat.zero_le _⟩
+  refine ⟨⟨?_, ?_, ?_, ?_, Nat.zero_le _, Nat.zero_le _⟩, Nat.zero_le _⟩
   · intro n hn; cases hn
   · intro u s he
     unfold initCS at he
